@@ -29,13 +29,13 @@ CLAIMED["C14"] = {
 
 CLAIMED["C02"] = {
     "text": "Coq theorems over group/ungroup, AffineQuantizer and the dequantizer as generated from the source on every run: ungroup inverts group for every rank/shape, both axes and every admissible group size (first axis: reshape; last axis: the two 3-d permutations cancel); every element is coded with the scale and zero-point of its own cell; in exact arithmetic, for a range containing zero and the element, zero-point and code lie in [0,2^bits-1] (no int8/uint8 wrap) and the dequantized value is within half a step. The implementation is audited in exact rational arithmetic group by group over degenerate classes and compared bit for bit with the Flocq evaluation of the generated model.",
-    "note": "Trusted: Coq kernel + vm_compute, Flocq, Reals axioms, translators, coq/Lib vocabulary (reshape/permute/broadcast/reduce) tied by correspondence. PARTIAL: that MaxOptimizer's range is the hull of the group and zero, the float-level slack, and requantization stability are decided by the audit + correspondence only (the exact theorem takes the range as hypothesis).",
+    "note": "Trusted: Coq kernel + vm_compute, Flocq, Reals axioms, translators, coq/Lib vocabulary (reshape/permute/broadcast/reduce) tied by correspondence. MaxOptimizer's range is proved (any number type) to be the hull of each cell and zero, cell by cell (max_optimize_cells). PARTIAL: the float-level slack and requantization stability are decided by the audit + correspondence only.",
     "design": "6/C02",
     "technique": "Coq proof over source-generated model + reflexivity tie + vm_compute correspondence + exact rational audit",
 }
 CLAIMED["C03"] = {
     "text": "Coq theorems over AbsmaxOptimizer / SymmetricQuantizer as generated from the source on every run, for any number type, rank and shape: exactly one scale per reduction cell (kept-axis index), computed from the members of that cell only (locality of the scale); every element is quantized and dequantized with the scale of the cell it projects onto and nothing else (locality of the codes); in exact arithmetic no element saturates under its own cell's scale, which equals absmax/qmax. The implementation is audited (saturation, full range, dtype/shape of the scale) and by a metamorphic stream (perturb / rescale / permute the other cells).",
-    "note": "Trusted: Coq kernel + vm_compute, Flocq, Reals axioms, translators, coq/Lib vocabulary tied by correspondence. PARTIAL: the int2/int4 optimizer (MaxOptimizer) and absmax_scale are covered by the audit, the metamorphic runs and correspondence, not yet by cell-level theorems; float rounding of the scale is in the audit's tolerance formulas only.",
+    "note": "Trusted: Coq kernel + vm_compute, Flocq, Reals axioms, translators, coq/Lib vocabulary tied by correspondence. The int2/int4 optimizer has the same cell-level theorem (max_optimize_cells: per cell, from that cell's minimum and maximum extended by zero). PARTIAL: absmax_scale (calibration) is covered by the audit and correspondence; float rounding of the scale is in the audit's tolerance formulas only.",
     "design": "6/C03",
     "technique": "Coq proof over source-generated model + reflexivity tie + metamorphic differential runs",
 }
